@@ -17,7 +17,7 @@ RULE = (
     "Generated UFL objects (forms of all integral types incl. prisms, interior facets, several rules, mixed elements; and "
     "expressions) x generated process histories executed in a fresh child interpreter before the target compilation: creation "
     "of unrelated meshes/spaces/coefficients (advancing UFL counters), compilation of 0-2 other generated specs in the same "
-    "process (also with sum_factorization / other scalar type), the target itself compiled earlier with other options (table tolerances, scalar type, part), "
+    "process (also with sum_factorization / other scalar type), the very same target objects compiled earlier with another scalar type or other options, the target itself (rebuilt) compiled earlier with other options (table tolerances, scalar type, part), "
     "calls of get_options with other values; the target is compiled with default, loose or (almost) exact table tolerances; two families - target "
     "objects created before the history (equal counters: isolates state leaks and hash-seed dependence) or after it (counters "
     "differ); x PYTHONHASHSEED drawn from a generated set; x language C / numba. Oracle: the text returned by "
@@ -48,7 +48,15 @@ def sibling_spec(target):
 def histories(draw, target=None, tp=False):
     steps = []
     for _ in range(draw(st.integers(0, 3))):
-        k = draw(st.sampled_from(["objects", "objects", "compile", "options", "sibling", "tp", "self", "self"]))
+        k = draw(st.sampled_from(["objects", "objects", "compile", "options", "sibling", "tp", "self", "self", "same-objects"]))
+        if k == "same-objects":
+            # the same UFL objects (not a rebuilt copy) compiled earlier with other options
+            opts = draw(st.sampled_from([{"scalar_type": "complex128"}, {"scalar_type": "float32"}, {"scalar_type": "float64"}, {"table_rtol": 1e-3, "table_atol": 1e-3},
+                                         {"part": "diagonal"}, {}]))
+            if tp:
+                opts = dict(opts, sum_factorization=draw(st.booleans()))
+            steps.append(["compile-target", opts])
+            continue
         if k == "self":
             # the target itself (rebuilt from its spec) compiled earlier in the same process with other options: every cache keyed
             # by element / points / rule is hit, so state shared between compilations shows up
@@ -140,7 +148,7 @@ def evaluate(case, wd):
     for k, v in enumerate(case["variants"]):
         job = dict(base_job, family=v["family"], steps=v["steps"])
         out, err = procs.run_job("vf.child_codegen", job, wd, f"{h}_v{k}", hashseed=v["hashseed"])
-        vdesc = {"steps": [s[:2] if s[0] != "compile" else ["compile", "<spec>", s[2]] for s in v["steps"]], "hashseed": v["hashseed"], "family": v["family"]}
+        vdesc = {"steps": [s[:2] if s[0] != "compile" else ["compile", "<spec>", s[2]] for s in v["steps"]],  # compile-target steps are [kind, options] "hashseed": v["hashseed"], "family": v["family"]}
         classes += [f"family:{v['family']}", f"steps:{len(v['steps'])}"] + [f"step:{s[0]}" for s in v["steps"]]
         if out is None:
             return Outcome("harness-error", case_id=h, classes=classes, what=err)
